@@ -2,6 +2,7 @@
   C19 (binding model): the Go value behind a built node is a well-typed inhabitant - `assignC_wt`, `assign_wt`.
 -/
 import IpldModel.Lemmas.GoBindBasic
+import IpldModel.Lemmas.GoBindAssignView
 import IpldModel.Lemmas.SchemaRound1
 import IpldModel.Lemmas.SchemaConf
 namespace Ipld
@@ -66,7 +67,7 @@ theorem assignC_wt : (v : TL) → (g : GoTy) → (t : Ty) → (nul : Bool) → (
     | some g0 =>
       simp only [hu, Option.map_eq_some_iff] at ha
       obtain ⟨a0, ha, rfl⟩ := ha
-      rw [wt_wrapPtr _ _ hu]
+      rw [wt_wrapFor _ _ hu]
       cases t <;> cases g0 <;> simp at ha
       all_goals (subst ha; simp [wt, conforms, TL.ofDM])
   | .float b, g, t, nul, gv, _, _, _, ha => by
@@ -76,7 +77,7 @@ theorem assignC_wt : (v : TL) → (g : GoTy) → (t : Ty) → (nul : Bool) → (
     | some g0 =>
       simp only [hu, Option.map_eq_some_iff] at ha
       obtain ⟨a0, ha, rfl⟩ := ha
-      rw [wt_wrapPtr _ _ hu]
+      rw [wt_wrapFor _ _ hu]
       cases t <;> cases g0 <;> simp at ha
       all_goals (subst ha; simp [wt, conforms, TL.ofDM])
   | .bytes b, g, t, nul, gv, _, _, _, ha => by
@@ -86,7 +87,7 @@ theorem assignC_wt : (v : TL) → (g : GoTy) → (t : Ty) → (nul : Bool) → (
     | some g0 =>
       simp only [hu, Option.map_eq_some_iff] at ha
       obtain ⟨a0, ha, rfl⟩ := ha
-      rw [wt_wrapPtr _ _ hu]
+      rw [wt_wrapFor _ _ hu]
       cases t <;> cases g0 <;> simp at ha
       all_goals (subst ha; simp [wt, conforms, TL.ofDM])
   | .link b, g, t, nul, gv, _, _, _, ha => by
@@ -96,7 +97,7 @@ theorem assignC_wt : (v : TL) → (g : GoTy) → (t : Ty) → (nul : Bool) → (
     | some g0 =>
       simp only [hu, Option.map_eq_some_iff] at ha
       obtain ⟨a0, ha, rfl⟩ := ha
-      rw [wt_wrapPtr _ _ hu]
+      rw [wt_wrapFor _ _ hu]
       cases t <;> cases g0 <;> simp at ha
       all_goals (subst ha; simp [wt, conforms, TL.ofDM])
   | .int i, g, t, nul, gv, _, _, _, ha => by
@@ -106,7 +107,7 @@ theorem assignC_wt : (v : TL) → (g : GoTy) → (t : Ty) → (nul : Bool) → (
     | some g0 =>
       simp only [hu, Option.map_eq_some_iff] at ha
       obtain ⟨a0, ha, rfl⟩ := ha
-      rw [wt_wrapPtr _ _ hu]
+      rw [wt_wrapFor _ _ hu]
       cases t <;> cases g0 <;> simp at ha
       · obtain ⟨hf, rfl⟩ := ha
         simp [wt, hf]
@@ -118,7 +119,7 @@ theorem assignC_wt : (v : TL) → (g : GoTy) → (t : Ty) → (nul : Bool) → (
     | some g0 =>
       simp only [hu, Option.map_eq_some_iff] at ha
       obtain ⟨a0, ha, rfl⟩ := ha
-      rw [wt_wrapPtr _ _ hu]
+      rw [wt_wrapFor _ _ hu]
       cases t with
       | str => cases g0 <;> simp at ha; subst ha; simp [wt]
       | any => cases g0 <;> simp at ha; subst ha; simp [wt, conforms, TL.ofDM]
@@ -147,8 +148,8 @@ theorem assignC_wt : (v : TL) → (g : GoTy) → (t : Ty) → (nul : Bool) → (
     | some g0 =>
       simp only [hu, Option.map_eq_some_iff] at ha
       obtain ⟨a0, ha, rfl⟩ := ha
-      rw [wt_wrapPtr _ _ hu]
-      rw [compatible_unptr t hu] at hc
+      rw [wt_wrapFor _ _ hu]
+      replace hc := compatible_of_unptr t hu hc
       cases t with
       | list et enul =>
         cases g0 <;> simp at ha
@@ -173,8 +174,8 @@ theorem assignC_wt : (v : TL) → (g : GoTy) → (t : Ty) → (nul : Bool) → (
     | some g0 =>
       simp only [hu, Option.map_eq_some_iff] at ha
       obtain ⟨a0, ha, rfl⟩ := ha
-      rw [wt_wrapPtr _ _ hu]
-      rw [compatible_unptr t hu] at hc
+      rw [wt_wrapFor _ _ hu]
+      replace hc := compatible_of_unptr t hu hc
       cases t with
       | map vt vnul =>
         cases g0 <;> simp at ha
@@ -266,8 +267,8 @@ theorem assignFields_wt : (es : TLKVs) → (gfs : GoFields) → (fs F : List Fie
       cases fs with
       | nil => simp [assignFields] at ha
       | cons f fs =>
-        unfold assignFields at ha
-        unfold compatFields at hc
+        rw [assignFields_cons] at ha
+        rw [compatFields_cons] at hc
         simp only [Bool.and_eq_true] at hc
         by_cases hk : k = f.name
         · subst hk
@@ -280,32 +281,59 @@ theorem assignFields_wt : (es : TLKVs) → (gfs : GoFields) → (fs F : List Fie
           subst this
           have ihrest := assignFields_wt es gfs fs F r (fun f hf => hsub f (by simp [hf])) hnd hwfF
               (fun e he => hvals e (by simp [TLKVs.toList, he])) hc.2 h2
-          by_cases hva : v = .absent
-          · subst hva
-            simp only [if_true] at h1
-            simp only [fieldValOK] at hok
-            simp only [hok, if_true] at h1 hc
-            cases g <;> simp at h1
-            subst h1
-            rw [wtFields_opt_nil _ _ _ _ _ _ hok]
-            exact ihrest
-          · simp only [hva, if_false] at h1
+          rw [wtFields_cons, ihrest, Bool.and_true]
+          have hcF := hc.1.2
+          unfold compatField at hcF
+          unfold assignField at h1
+          unfold wtField
+          simp only at hok
+          cases hs : fslot g f'.opt f'.nullable with
+          | value =>
+            simp only [hs] at h1 hcF ⊢
+            have hva : v ≠ .absent := by intro h; subst h; simp [assignC] at h1
             have hcv : conforms f'.ty f'.nullable v = true := by
               cases v <;> first | exact absurd rfl hva | exact hok
-            cases ho : f'.opt with
-            | true =>
-              simp only [ho, if_true] at h1 hc
-              cases g <;> simp at h1 hc
-              rename_i g1
+            exact assignC_wt v g f'.ty f'.nullable a (hwfF f' hfF) hcF hcv h1
+          | optPtr g1 =>
+            simp only [hs] at h1 hcF ⊢
+            by_cases hva : v = .absent
+            · subst hva
+              simp only [if_true, Option.some.injEq] at h1
+              subst h1; rfl
+            · simp only [hva, if_false, Option.map_eq_some_iff] at h1
               obtain ⟨a1, h1, rfl⟩ := h1
-              rw [wtFields_opt_ptr _ _ _ _ _ _ _ ho]
-              simp only [Bool.and_eq_true]
-              exact ⟨assignC_wt v g1 f'.ty f'.nullable a1 (hwfF f' hfF) hc.1.2 hcv h1, ihrest⟩
-            | false =>
-              simp only [ho, Bool.false_eq_true, if_false] at h1 hc
-              rw [wtFields_nonopt _ _ _ _ _ _ _ ho]
-              simp only [Bool.and_eq_true]
-              exact ⟨assignC_wt v g f'.ty f'.nullable a (hwfF f' hfF) hc.1.2 hcv h1, ihrest⟩
+              have hcv : conforms f'.ty f'.nullable v = true := by
+                cases v <;> first | exact absurd rfl hva | exact hok
+              exact assignC_wt v g1 f'.ty f'.nullable a1 (hwfF f' hfF) hcF hcv h1
+          | optBare =>
+            obtain ⟨ho, hn, hb⟩ := fslot_optBare hs
+            simp only [hs] at h1 hcF ⊢
+            by_cases hva : v = .absent
+            · subst hva
+              simp only [if_true] at h1
+              simp [h1]
+            · simp only [hva, if_false] at h1
+              have hcv : conforms f'.ty false v = true := by
+                have : conforms f'.ty f'.nullable v = true := by
+                  cases v <;> first | exact absurd rfl hva | exact hok
+                rwa [hn] at this
+              simp [assignC_wt v g f'.ty false a (hwfF f' hfF) hcF hcv h1]
+          | nulBare =>
+            obtain ⟨ho, hn, hb⟩ := fslot_nulBare hs
+            simp only [hs] at h1 hcF ⊢
+            have hva : v ≠ .absent := by
+              intro h; subst h; simp [fieldValOK, ho] at hok
+            have hcv' : conforms f'.ty true v = true := by
+              have : conforms f'.ty f'.nullable v = true := by
+                cases v <;> first | exact absurd rfl hva | exact hok
+              rwa [hn] at this
+            by_cases hvn : v = .null
+            · subst hvn
+              simp only [if_true] at h1
+              simp [h1]
+            · simp only [hvn, if_false] at h1
+              simp [assignC_wt v g f'.ty false a (hwfF f' hfF) hcF (conforms_false_of _ _ _ hvn hcv') h1]
+          | bad => simp [hs] at h1
         · have : (k != f.name) = true := by simpa using hk
           simp [this] at ha
 end
